@@ -112,8 +112,11 @@ fn exec_line(line: &str) -> String {
     let dead_row = i.rows.iter().any(|r| r.iter().all(|&x| x == 0));
     let uniform = !i.rows.is_empty() && i.rows.iter().all(|r| r.iter().all(|&x| x == r[0]));
     let npaths = (i.l as u64).saturating_pow(i.rows.len() as u32);
+    let recreate = i.l >= 1 && i.k >= 1 && !i.rows.is_empty() && sim_history(&i.rows, i.l, i.k as usize).0;
     let tag = if i.rows.is_empty() {
         "trivial-T0".to_string()
+    } else if recreate {
+        format!("T{}L{}-recreate-k{}", i.rows.len(), i.l, i.k)
     } else {
         format!(
             "T{}L{}{}{}{}-{}",
@@ -219,6 +222,107 @@ fn gen_row(rng: &mut SplitMix64, l: usize, den: u32) -> Vec<u32> {
     r
 }
 
+/// Integer re-run of the beam search (exact weights, same candidate order, stable descending
+/// selection, zero-probability candidates skipped), used ONLY to stratify the generator: it
+/// answers whether the run has a "prune-then-recreate" history, i.e. at some step the beam holds
+/// s1, s2 with labels(s2) = labels(s1) ++ [c] whose recorded positions differ on the common
+/// prefix (s1 was dropped and re-created later while its extension s2 survived).  On such
+/// inputs the merge map joins states of different lineage -- the rarely taken branch.
+/// Returns (history found, some candidate was pruned).
+fn sim_history(rows: &[Vec<u32>], l: usize, k: usize) -> (bool, bool) {
+    #[derive(Clone)]
+    struct St {
+        pre: Vec<(u32, u32)>,
+        pb: u128,
+        pnb: u128,
+    }
+    let labels_eq = |a: &[(u32, u32)], b: &[(u32, u32)]| a.len() == b.len() && a.iter().zip(b).all(|(x, y)| x.0 == y.0);
+    let mut beam = vec![St { pre: vec![], pb: 1, pnb: 0 }];
+    let mut found = false;
+    let mut pruned = false;
+    for (pos, r) in rows.iter().enumerate() {
+        let nb = beam.len();
+        // merge targets (last match wins), by labels only
+        let mut target = vec![vec![None::<usize>; l]; nb];
+        for i1 in 0..nb {
+            for i2 in 0..nb {
+                let (s1, s2) = (&beam[i1], &beam[i2]);
+                if s2.pre.len() == s1.pre.len() + 1 && labels_eq(&s1.pre, &s2.pre[..s1.pre.len()]) {
+                    target[i1][s2.pre[s1.pre.len()].0 as usize] = Some(i2);
+                    if s1.pre[..] != s2.pre[..s1.pre.len()] {
+                        found = true;
+                    }
+                }
+            }
+        }
+        let mut npb = vec![vec![0u128; l]; nb];
+        let mut npnb = vec![vec![0u128; l]; nb];
+        for (bi, s) in beam.iter().enumerate() {
+            npb[bi][0] += (s.pb + s.pnb) * r[0] as u128;
+            let prev = s.pre.last().map(|x| x.0 as usize);
+            for c in 1..l {
+                let p = r[c] as u128;
+                let (ti, tc) = match target[bi][c] { Some(t) => (t, 0), None => (bi, c) };
+                if Some(c) != prev {
+                    npnb[ti][tc] += (s.pb + s.pnb) * p;
+                } else {
+                    npnb[ti][tc] += s.pb * p;
+                    npnb[bi][0] += s.pnb * p;
+                }
+            }
+        }
+        let mut cands: Vec<(u128, usize, usize)> = vec![];
+        for bi in 0..nb {
+            for c in 0..l {
+                let t = npb[bi][c] + npnb[bi][c];
+                if t > 0 {
+                    cands.push((t, bi, c));
+                }
+            }
+        }
+        cands.sort_by(|a, b| b.0.cmp(&a.0)); // stable
+        if cands.len() > k {
+            pruned = true;
+        }
+        cands.truncate(k);
+        beam = cands
+            .iter()
+            .map(|&(_, bi, c)| {
+                let mut pre = beam[bi].pre.clone();
+                if c > 0 {
+                    pre.push((c as u32, pos as u32));
+                }
+                St { pre, pb: npb[bi][c], pnb: npnb[bi][c] }
+            })
+            .collect();
+    }
+    (found, pruned)
+}
+
+/// Structured family: narrow beams over peaked rows whose run has a prune-then-recreate history
+/// (rejection sampling through `sim_history`).  Weights come from a small alphabet with one or
+/// two dominant labels per frame, den = 128 (all entries exact in f32).
+fn gen_recreate(rng: &mut SplitMix64, want: usize, out: &mut impl Write) {
+    let alpha = [1u32, 3, 13, 30];
+    let mut made = 0;
+    let mut tries = 0u64;
+    while made < want && tries < 40_000_000 {
+        tries += 1;
+        let t = 4 + rng.below(3) as usize;
+        let l = if rng.chance(1, 5) { 4 } else { 3 };
+        let k = 2 + rng.below(3) as u32;
+        let rows: Vec<Vec<u32>> = (0..t).map(|_| (0..l).map(|_| rng.pick(&alpha)).collect()).collect();
+        let (found, _) = sim_history(&rows, l, k as usize);
+        if !found {
+            continue;
+        }
+        made += 1;
+        let nb = if rng.chance(1, 2) { k } else { 25 };
+        let i = Input { l, den: 128, k, n: nb, rows };
+        writeln!(out, "{}", fmt_input(&i)).unwrap();
+    }
+}
+
 fn generate(seed: u64, n: usize, tier: &str, out: &mut impl Write) {
     // 1. exhaustive tiny scope: all matrices over a 3-value alphabet {0, 4/16, 5/16}
     let (max_t, max_l) = if tier == "thorough" { (2usize, 3usize) } else { (2, 2) };
@@ -249,7 +353,10 @@ fn generate(seed: u64, n: usize, tier: &str, out: &mut impl Write) {
             }
         }
     }
-    // 2. seeded random matrices T <= 5, L <= 4
+    // 2. structured family: prune-then-recreate histories under narrow beams
+    let mut rng = SplitMix64(seed ^ 0xC39B);
+    gen_recreate(&mut rng, if tier == "thorough" { 6000 } else { 600 }, out);
+    // 3. seeded random matrices T <= 5, L <= 4
     let mut rng = SplitMix64(seed ^ 0xC39);
     for _ in 0..n {
         let t = match rng.below(10) { 0 => rng.below(2) as usize, _ => 1 + rng.below(5) as usize };
@@ -276,6 +383,20 @@ fn main() {
             let seed: u64 = args[2].parse().unwrap();
             let n: usize = args[3].parse().unwrap();
             generate(seed, n, &args[4], &mut out);
+        }
+        Some("famrate") => {
+            // diagnostic: acceptance rate of the structured family's rejection filter
+            let mut rng = SplitMix64(args[2].parse().unwrap());
+            let alpha = [1u32, 3, 13, 30];
+            let (mut f, mut tot) = (0u64, 0u64);
+            for _ in 0..200_000 {
+                let t = 4 + rng.below(3) as usize;
+                let k = 2 + rng.below(3) as usize;
+                let rows: Vec<Vec<u32>> = (0..t).map(|_| (0..3).map(|_| rng.pick(&alpha)).collect()).collect();
+                tot += 1;
+                if sim_history(&rows, 3, k).0 { f += 1; }
+            }
+            writeln!(out, "{} of {}", f, tot).unwrap();
         }
         Some("exec") => {
             for line in std::io::stdin().lock().lines() {
